@@ -502,7 +502,15 @@ func (sc *ServiceClient) fetchBlock(ctx context.Context, runtimeID common.Namesp
 
 // DeliverExecutorCommitment implements roothash.ExecutorCommitmentNotifier.
 func (sc *ServiceClient) DeliverExecutorCommitment(runtimeID common.Namespace, ec *commitment.ExecutorCommitment) {
-	notifiers := sc.getRuntimeNotifiers(runtimeID)
+	// NOTE: The runtime identifier comes from a transaction that has not been verified yet (the
+	//       commitments are forwarded during transaction checks), so it must not cause any
+	//       notifiers to be created. If nobody is watching the runtime there is nobody to notify.
+	sc.mu.RLock()
+	notifiers := sc.runtimeNotifiers[runtimeID]
+	sc.mu.RUnlock()
+	if notifiers == nil {
+		return
+	}
 	notifiers.ecNotifier.Broadcast(ec)
 }
 
